@@ -1,8 +1,11 @@
-//! A `tracing` subscriber that enables every level and formats every field into a sink. Half of
-//! the runs execute under it (scoped to the run's thread), so that the expressions inside the
-//! library's `trace!`/`debug!` calls and the `Debug` impls they use are real code in the
-//! simulation rather than dead code: an application that turns on TRACE logging must not change
-//! what the client does.
+//! A `tracing` subscriber that enables every level and formats every field into a sink. It is
+//! installed as the process-wide default, so that the expressions inside the library's
+//! `trace!`/`debug!` calls and the `Debug` impls they use are real code in every simulated run
+//! rather than dead code: an application that turns on TRACE logging must not change what the
+//! client does. (It is process-wide and unconditional on purpose: `tracing` caches per call site
+//! whether anybody is interested, across threads, so a per-run switch would make a run's
+//! behaviour depend on what other worker threads are doing — found the hard way, as a replay
+//! that did not reproduce.)
 
 use std::fmt::Write;
 use std::sync::atomic::{AtomicU64, Ordering};
@@ -23,13 +26,19 @@ impl TraceAll {
     }
 }
 
-/// Formats into nothing, but does run the `Debug`/`Display` code.
+/// Formats into nothing, but does run the `Debug`/`Display` code — for the first 512 bytes of
+/// output per field; then it reports an error, which makes the formatter stop (formatting
+/// 30 KB values character by character on every event would dominate the run time).
 struct Sink(usize);
 
 impl Write for Sink {
     fn write_str(&mut self, s: &str) -> std::fmt::Result {
         self.0 += s.len();
-        Ok(())
+        if self.0 > 512 {
+            Err(std::fmt::Error)
+        } else {
+            Ok(())
+        }
     }
 }
 
@@ -37,6 +46,7 @@ struct Fmt(Sink);
 
 impl Visit for Fmt {
     fn record_debug(&mut self, _field: &Field, value: &dyn std::fmt::Debug) {
+        self.0 .0 = 0;
         let _ = write!(self.0, "{:?}", value);
     }
 }
@@ -60,11 +70,7 @@ impl Subscriber for TraceAll {
     fn exit(&self, _span: &Id) {}
 }
 
-/// Run `f` with TRACE logging switched on for this thread (or not).
-pub fn with_tracing<R>(on: bool, f: impl FnOnce() -> R) -> R {
-    if on {
-        tracing::subscriber::with_default(TraceAll::new(), f)
-    } else {
-        f()
-    }
+/// Install the subscriber for the whole process. Call once, first thing in `main`.
+pub fn install_global() {
+    let _ = tracing::subscriber::set_global_default(TraceAll::new());
 }
